@@ -23,6 +23,24 @@ def sym_int(x=0, *a):
     return _b.int(x, *a)
 
 
+class TaggedSymInt(SymInt):
+    """A symbolic instance of an int subclass (e.g. utils.FileOffset): arithmetic yields plain SymInts."""
+    __slots__ = ('cls',)
+
+    def __init__(self, t, cls):
+        SymInt.__init__(self, t, False)
+        self.cls = cls
+
+
+def _int_new(cls, value=0):
+    if isinstance(value, SymInt):
+        return TaggedSymInt(value.t, cls)
+    return _b.int.__new__(cls, value)
+
+
+sym_int.__new__ = _int_new
+
+
 def sym_float(x=0.0):
     if isinstance(x, SymInt):
         return SymInt(x.t, True)
@@ -45,6 +63,8 @@ def sym_isinstance(x, cls):
     cls = _unshadow(cls)
     if isinstance(x, SymInt):
         classes = cls if _b.isinstance(cls, tuple) else (cls,)
+        if isinstance(x, TaggedSymInt) and any(_b.isinstance(c, type) and issubclass(x.cls, c) for c in classes):
+            return True
         for c in classes:
             if c is int and not x.isfloat:
                 return True
